@@ -52,7 +52,101 @@ def install_stream_iter(callees):
     return callees
 
 
-STD_GLOBS = {"Stream": Stream}
+@callee
+def it_tee(m, args, kwargs):
+    from . import views
+    src = m.iter_of(args[0])
+    n = args[1] if len(args) > 1 else kwargs.get("n", 2)
+    if not isinstance(n, int):
+        return views.teelist(m, src, n)     # only ever consumed through list(...).pop() / [0]
+    return views.tee(m, src, n)
+
+
+@callee
+def it_chain(m, args, kwargs):
+    from . import views
+    # chain() calls iter() on an argument only when it reaches it: for an
+    # iterator that makes no difference, for a Stream object it binds late
+    late = any(isinstance(a, Ref) and a.kind == "obj" for a in args[1:])
+    its = [m.iter_of(a) for a in args]
+    if len(its) == 1:
+        return its[0]
+    if len(its) != 2:
+        raise Unsupported("chain of %d iterables" % len(its))
+    v = views.chain2(m, its[0], its[1])
+    if late:
+        m.heap[(v.id, "late_bound")] = True
+    return v
+
+
+@callee
+def it_repeat(m, args, kwargs):
+    from . import views
+    if len(args) != 1:
+        raise Unsupported("repeat with a count")
+    return views.repeat(m, args[0])
+
+
+@callee
+def it_cycle(m, args, kwargs):
+    (t,) = args
+    if not (isinstance(t, tuple) and t and all(sym.is_num(x) for x in t)):
+        raise Unsupported("cycle(%r)" % (t,))
+    real = any(not sym.is_int_valued(x) for x in t)
+    j = z3.Int("j!cyc%d" % m.counter)
+    m.counter += 1
+    body = sym.to_real(t[-1]) if real else sym.to_z3num(t[-1])
+    for i in range(len(t) - 2, -1, -1):
+        x = sym.to_real(t[i]) if real else sym.to_z3num(t[i])
+        body = z3.If(j % len(t) == i, x, body)
+    return m.new_iter(sym.Real if real else sym.Int, "cycle", finite=False, arr=z3.Lambda([j], body), length=z3.IntVal(0))
+
+
+@callee
+def xmap(m, args, kwargs):
+    from . import views
+    f = args[0]
+    its = [m.iter_of(a) for a in args[1:]]
+    if len(its) == 1:
+        return views.map1(m, f, its[0])
+    if len(its) == 2:
+        return views.map2(m, f, its[0], its[1])
+    raise Unsupported("map over %d iterables" % len(its))
+
+
+@callee
+def xzip(m, args, kwargs):
+    from . import views
+    return views.zipn(m, [m.iter_of(a) for a in args])
+
+
+@callee
+def it_islice(m, args, kwargs):
+    from . import views
+    if len(args) != 2:
+        raise Unsupported("islice with start/step")
+    return views.islice_stop(m, m.iter_of(args[0]), args[1])
+
+
+IT = sym.Module("it", {"islice": it_islice, "tee": it_tee, "chain": it_chain, "repeat": it_repeat, "cycle": it_cycle})
+STD_GLOBS = {"Stream": Stream, "it": IT, "xmap": xmap, "xzip": xzip, "Iterable": "Iterable", "inf": float("inf")}
+
+
+def std_isinstance(m, v, cls):
+    if cls == "Iterable":
+        return is_iterable(m, v)
+    if cls == "float":
+        return (isinstance(v, float)) or (sym.is_z3(v) and v.sort() == REAL)
+    if isinstance(cls, sym.Builtin) and cls.name == "float":
+        return (isinstance(v, float)) or (sym.is_z3(v) and v.sort() == REAL)
+    if isinstance(cls, sym.Builtin) and cls.name == "int":
+        return (isinstance(v, int) and not isinstance(v, bool)) or (sym.is_z3(v) and v.sort() == INT)
+    if isinstance(cls, tuple):
+        ts = [std_isinstance(m, v, c) for c in cls]
+        return any(ts)
+    if isinstance(cls, str) and cls in STREAM_CLASSES:
+        return isinstance(v, Ref) and v.kind == "obj" and v.elem in STREAM_CLASSES
+    raise Unsupported("isinstance(%r, %r)" % (v, cls))
 STD_CALLEES = install_stream_iter({})
 
 
@@ -99,3 +193,114 @@ def rint(m, args, kwargs):
     if isinstance(x, int):
         return x
     return sym.rint_spec(x)
+
+
+# ---------------------------------------------------------------------------
+# parameter constructors for sidecar modes
+def StreamObj(elem=sym.Elem, finite=None, cls="Stream"):
+    """a Stream instance whose `_data` is an arbitrary iterator (any history
+    before the call is summarised by: some iterator, at some position)"""
+    def make(m, name):
+        data = m.new_iter(elem, name + "_data", finite=finite)
+        return m.new_obj(cls, {"_data": data})
+    return make
+
+
+def HubObj(elem=sym.Elem):
+    """a StreamTeeHub with a symbolic number (>= 0) of unused copies"""
+    from . import views
+
+    def make(m, name):
+        data = m.new_iter(elem, name + "_data")
+        n = z3.Int(name + "_copies")
+        m.assume(n >= 0)
+        tl = views.teelist(m, data, n)
+        return m.new_obj("StreamTeeHub", {"_data": data, "_iters": tl})
+    return make
+
+
+def RawObj(cls, **fields):
+    def make(m, name):
+        return m.new_obj(cls, dict(fields))
+    return make
+
+
+# ---------------------------------------------------------------------------
+# models of Stream methods = the postconditions of their contracts in contracts/c03.py
+def m_stream_copy(m, self, args, kwargs):
+    from . import views
+    if self.elem == "StreamTeeHub":
+        tl = m.heap[(self.id, "_iters")]
+        if m.branch(m.heap[(tl.id, "count")] > 0):
+            return m.new_obj("Stream", {"_data": views.teelist_child(m, tl)})
+        raise sym.PyRaise("IndexError")
+    a, b = views.tee(m, m.heap[(self.id, "_data")], 2)
+    m.heap[(self.id, "_data")] = a
+    return m.new_obj("Stream", {"_data": b})
+
+
+def m_stream_take(m, self, args, kwargs):
+    """postcondition of Stream.take (contract 'Stream.take'): the first
+    min(max(n,0), remaining) items as a list, removed from the stream; never an
+    exception for a number n"""
+    n = kwargs.get("n", args[0] if args else None)
+    d = m.heap[(self.id, "_data")]
+    pos, ln, inf, arr = (m.heap[(d.id, k)] for k in ("pos", "len", "inf", "arr"))
+    if n is None:
+        return m.do_next(d)
+    if isinstance(n, float) and n == float("inf"):
+        return sym.BUILTINS["list"](m, [d], {})
+    if sym.is_z3(n) and n.sort() == REAL:
+        n = z3.If(n > 0, sym.rint_spec(n), 0)
+    zn = sym.to_z3num(n)
+    mm = z3.If(zn <= 0, 0, z3.If(z3.And(z3.Not(inf), zn > ln - pos), ln - pos, zn))
+    j = z3.Int("j!take%d" % m.counter)
+    m.counter += 1
+    res = m.new_list(d.elem, arr=z3.Lambda([j], arr[pos + j]), length=z3.simplify(mm))
+    m.heap[(d.id, "pos")] = z3.simplify(pos + mm)
+    m.sync(d)
+    return res
+
+
+def m_stream_init(m, self, args, kwargs):
+    s = Stream(m, list(args), {})
+    fields = m.heap[(self.id, "__fields__")]
+    if "_data" not in fields:
+        m.heap[(self.id, "__fields__")] = fields + ("_data",)
+    m.heap[(self.id, "_data")] = m.heap[(s.id, "_data")]
+    return None
+
+
+def m_stream_iter(m, self, args, kwargs):
+    return m.heap[(self.id, "_data")]
+
+
+def m_hub_iter(m, self, args, kwargs):
+    from . import views
+    tl = m.heap[(self.id, "_iters")]
+    if m.branch(m.heap[(tl.id, "count")] > 0):
+        m.heap[(tl.id, "count")] = z3.simplify(m.heap[(tl.id, "count")] - 1)
+        return views.teelist_child(m, tl)
+    raise sym.PyRaise("IndexError")
+
+
+STREAM_METHODS = {("Stream", "copy"): m_stream_copy, ("Stream", "take"): m_stream_take,
+                  ("StreamTeeHub", "copy"): m_stream_copy, ("StreamTeeHub", "take_base"): m_stream_take}
+for _cls in STREAM_CLASSES:
+    STD_CALLEES[(_cls, "copy")] = m_stream_copy
+STD_CALLEES[("Stream", "take")] = m_stream_take
+STD_CALLEES[("StreamTeeHub", "__iter__")] = lambda m, v: m_hub_iter(m, v, [], {})
+
+
+@callee
+def StreamTeeHub(m, args, kwargs):
+    """postcondition of StreamTeeHub.__init__ (contract 'StreamTeeHub.__init__')"""
+    from . import views
+    data, n = args
+    s = Stream(m, [data], {})
+    d = m.heap[(s.id, "_data")]
+    tl = views.teelist(m, d, n)
+    return m.new_obj("StreamTeeHub", {"_data": d, "_iters": tl})
+
+
+STD_GLOBS["StreamTeeHub"] = StreamTeeHub
